@@ -1026,6 +1026,46 @@ func checkSharedReceiversReadOnly(c *core.Ctx, r *core.Rule, prog *core.Prog) {
 	if n == 0 {
 		r.Undecided("shared-receivers:none", "-", "no methods found in ogenregex / validate")
 	}
+	// value receivers everywhere in the runtime: the method got a copy of the struct, so anything it writes
+	// through the copy's reference fields (maps, slices, pointers) lands in memory the caller still shares —
+	// e.g. a header map supplied once and used for concurrent uploads
+	rtScope := map[string]bool{}
+	for _, p := range prog.Pkgs {
+		rtScope[p.PkgPath] = true
+	}
+	an2 := effects.Analyze(prog, func(f *ssa.Function) bool { return rtScope[core.FuncPkgPath(f)] })
+	var vfns []*ssa.Function
+	for f := range an2.Sum {
+		if f.Signature.Recv() == nil || f.Parent() != nil || !rtScope[core.FuncPkgPath(f)] || scope[core.FuncPkgPath(f)] {
+			continue
+		}
+		if _, ptr := f.Signature.Recv().Type().(*types.Pointer); ptr {
+			continue
+		}
+		if f.Synthetic != "" {
+			continue
+		}
+		vfns = append(vfns, f)
+	}
+	sort.Slice(vfns, func(i, j int) bool { return vfns[i].String() < vfns[j].String() })
+	for _, f := range vfns {
+		var bad []string
+		var pos token.Pos
+		for _, e := range an2.Sum[f].Effects {
+			if e.Root != effects.Param || e.Index != 0 || strings.HasPrefix(e.Kind, "ext:") || strings.HasPrefix(e.Kind, "unknown:") {
+				continue
+			}
+			bad = append(bad, e.String())
+			pos = e.Pos
+		}
+		sort.Strings(bad)
+		key := "value-receiver-write:" + core.FuncName(f)
+		if len(bad) == 0 {
+			r.Ob(true, "")
+		} else {
+			r.Fail(key, c.Pos(pos), fmt.Sprintf("%s has a value receiver but writes through one of its reference fields (%s): the memory belongs to the caller's original, which other goroutines may be using (a shared header map, a shared slice)", core.FuncName(f), strings.Join(bad, "; ")))
+		}
+	}
 }
 
 // effectIsDeep: the store lands behind a reference held by the receiver (not in the receiver's own fields).
